@@ -74,9 +74,13 @@ class OptEval(ME.Evaluator):
                         tuple(sorted((k.arg, self.ev(k.value, env)) for k in n.keywords)))
             base = self.ev(f.value, env)
             args = [self.ev(a, env) for a in n.args]
+            kwargs = {k.arg: self.ev(k.value, env) for k in n.keywords if k.arg is not None}
+            if any(k.arg is None for k in n.keywords) or (kwargs and not (isinstance(base, dict) and f.attr == 'update')):
+                if isinstance(base, (dict, list, str)):
+                    raise ME.Unsupported(f'keyword arguments in `{src(n)[:50]}`')
             if isinstance(base, dict) and f.attr in ('get', 'setdefault', 'pop', 'update', 'copy', 'keys', 'items'):
                 try:
-                    return getattr(base, f.attr)(*args)
+                    return getattr(base, f.attr)(*args, **kwargs)
                 except KeyError as e:
                     raise ME.Crash(f'KeyError {e} in `{src(n)}`')
             if isinstance(base, list) and f.attr in ('append', 'insert', 'extend', 'index', 'count'):
